@@ -97,6 +97,12 @@ def run(mode, tier, seed, nshards, call="vgen.CheckAll()"):
     return outs
 
 
+def names_element(err, mention):
+    """the error names the element: whole-identifier, case-sensitive match outside the file/position prefix."""
+    body = re.sub(r"^(\S+: )?(\S*f\d+\.spec)(:\d+:\d+)?:? ?", "", err.strip())
+    return any(re.search(r"(?<![A-Za-z0-9_])" + re.escape(m) + r"(?![A-Za-z0-9_])", body) for m in mention.split("|"))
+
+
 def sig_norm(s):
     s = re.sub(r"p\d{4}\w*", "pNNNN", s)
     s = re.sub(r"\d+", "#", s)
@@ -128,9 +134,11 @@ def check(mode, prop, level, assumptions, call="vgen.CheckAll()"):
                     v = ("compiler/generator panics: " + sig_norm(e["panic"].splitlines()[0]), e["panic"])
                 elif not e["generated"]:
                     outcome = "rejected"
+                    if os.environ.get("VERIF_DUMP_REJECTS"):
+                        print("REJECT\t%s\t%r\t%s" % (e.get("rule"), e.get("mention"), e["error"].replace("\n", " | ")[:200]))
                     if e["expect"] == "ok":
                         v = ("valid schema rejected: " + e["id"].split(" tag ")[0][:60] + ": " + sig_norm(e["error"]), "schema %s\nerror: %s" % (e["id"], e["error"]))
-                    elif e.get("mention") and e["mention"].lower() not in e["error"].lower():
+                    elif e.get("mention") and not names_element(e["error"], e["mention"]):
                         v = ("rejection does not name the offending element (%s)" % e.get("rule"), "schema %s\nerror: %s\nexpected the error to mention %r" % (e["id"], e["error"], e["mention"]))
                 elif bad_build:
                     outcome = "generated, does not compile"
